@@ -146,85 +146,66 @@ def _event(op, zpath, *extra, mutating=False, path=None):
         sim.yield_point("io")
 
 
-class _WriteProxy:
-    """Wraps a real file object opened for writing on a sandbox path: records the bytes before
-    and after, applies write faults."""
+def _instrument_write(f, path, zpath, before, fault):
+    """Records bytes before/after and applies write faults WITHOUT replacing the file object: the real io object is
+    returned (code under test may test isinstance(out, io.TextIOBase), as xml.sax.saxutils.XMLGenerator does) with
+    instance attributes shadowing close / write / writelines."""
+    state = {"logged": False}
+    real_close = f.close
+    real_write = f.write
 
-    def __init__(self, f, path, zpath, before, fault):
-        object.__setattr__(self, "_f", f)
-        object.__setattr__(self, "_path", path)
-        object.__setattr__(self, "_zpath", zpath)
-        object.__setattr__(self, "_before", before)
-        object.__setattr__(self, "_fault", fault)
-        object.__setattr__(self, "_closed_logged", False)
-
-    def __getattr__(self, name):
-        return getattr(self._f, name)
-
-    def __setattr__(self, name, value):
-        setattr(self._f, name, value)
-
-    def __enter__(self):
-        self._f.__enter__()
-        return self
-
-    def __exit__(self, *a):
-        try:
-            return self._f.__exit__(*a)
-        finally:
-            self._log_close()
-
-    def __iter__(self):
-        return iter(self._f)
-
-    def __next__(self):
-        return next(self._f)
-
-    def write(self, data):
-        flt = self._fault
-        if flt is not None:
-            if flt.kind == "enospc-on-write":
-                raise OSError(errno.ENOSPC, "No space left on device (injected)")
-            if flt.kind == "short-write":
-                half = data[: max(0, len(data) // 2)]
-                self._f.write(half)
-                self._f.flush()
-                raise OSError(errno.ENOSPC, "No space left on device (injected, short write)")
-            if flt.kind == "eio-on-write":
-                raise OSError(errno.EIO, "Input/output error (injected)")
-        return self._f.write(data)
-
-    def writelines(self, lines):
-        for line in lines:
-            self.write(line)
-
-    def close(self):
-        try:
-            return self._f.close()
-        finally:
-            self._log_close()
-
-    def _log_close(self):
-        if self._closed_logged:
+    def log_close():
+        if state["logged"]:
             return
-        object.__setattr__(self, "_closed_logged", True)
+        state["logged"] = True
         try:
-            with real_open(self._path, "rb") as g:
+            with real_open(path, "rb") as g:
                 after = g.read()
         except OSError:
             after = None
         sim = sched.CURRENT
-        FS.writes.append(
-            {
-                "ci": sim.codemod_index if sim else -1,
-                "path": self._zpath,
-                "before": None if self._before is None else enc(self._before),
-                "after": None if after is None else enc(after),
-            }
-        )
+        fs = FS
+        if fs is None:
+            return
+        fs.writes.append({
+            "ci": sim.codemod_index if sim else -1,
+            "path": zpath,
+            "before": None if before is None else enc(before),
+            "after": None if after is None else enc(after),
+        })
         if sim is not None:
-            sim.log("fs", "write-close", self._zpath,
-                    None if after is None else sha(after.replace(FS.root.encode(), b"<S>"))[:16])
+            sim.log("fs", "write-close", zpath, None if after is None else sha(after.replace(fs.root.encode(), b"<S>"))[:16])
+
+    def close():
+        try:
+            return real_close()
+        finally:
+            log_close()
+
+    def write(data):
+        if fault is not None:
+            if fault.kind == "enospc-on-write":
+                raise OSError(errno.ENOSPC, "No space left on device (injected)")
+            if fault.kind == "short-write":
+                real_write(data[: max(0, len(data) // 2)])
+                f.flush()
+                raise OSError(errno.ENOSPC, "No space left on device (injected, short write)")
+            if fault.kind == "eio-on-write":
+                raise OSError(errno.EIO, "Input/output error (injected)")
+        return real_write(data)
+
+    def writelines(lines):
+        for line in lines:
+            write(line)
+
+    try:
+        f.close = close
+        if fault is not None:
+            f.write = write
+            f.writelines = writelines
+    except AttributeError:
+        pass  # an io object without instance dict: left uninstrumented (seam gap shows up in the snapshot comparison)
+    return f
 
 
 def _is_write_mode(mode):
@@ -255,8 +236,10 @@ def sim_open(file, mode="r", *args, **kwargs):
             if flt.kind == "open-enospc":
                 raise OSError(errno.ENOSPC, "No space left on device (injected)", os.fspath(file))
         f = real_open(file, mode, *args, **kwargs)
+        if zone == "tmp":
+            return f  # scratch files of the code under test: no instrumentation needed
         wflt = fs.fault("write", zpath)
-        return _WriteProxy(f, os.fspath(file), zpath, before, wflt)
+        return _instrument_write(f, os.fspath(file), zpath, before, wflt)
     # read
     _event("open-read", zpath, mode, path=file)
     flt = fs.fault("open-read", zpath)
